@@ -73,6 +73,8 @@ Proof.
   intros k en1 en2 e. induction e using expr_ind'; intros Ha Hp; cbn [reval attr_ids] in *; try reflexivity.
   - apply Ha. left. reflexivity.
   - apply Hp.
+  - apply Ha. left. reflexivity.
+  - apply Ha. left. reflexivity.
   - rewrite (IHe1 (fun i Hi => Ha i (in_or_app _ _ i (or_introl Hi))) Hp), (IHe2 (fun i Hi => Ha i (in_or_app _ _ i (or_intror Hi))) Hp). reflexivity.
   - rewrite (IHe Ha Hp). reflexivity.
   - rewrite (IHe Ha Hp). reflexivity.
